@@ -101,7 +101,7 @@ def run(eng, ctx):
     for fld in (sat_field, sig_field):
         loc = eng.loc(mb, mb.node)
         if fld not in scans:
-            ctx.bad("C09.D2", mb.qualname, f"scan of {fld}", expected="a loop testing one bit of the mask per iteration", found="no such loop", **loc)
+            ctx.undecided("C09.D2", mb.qualname, f"scan of {fld}", detail="no loop testing one bit of the mask per iteration was recognised (the scan has a shape this rule does not follow)", **loc)
             continue
         sc = scans[fld]
         lid = sc["loop"][-1]
@@ -138,8 +138,18 @@ def run(eng, ctx):
             ctx.check(ok, "C09.D2", mb.qualname, f"label key in scan of {fld}", expected=f"ID = {W} - position = {Poly.const(W) - E!r}", found=repr(K) if K is not None else show(k), **eng.loc(mb, e.node))
         # ordinal bookkeeping
         cv = counters.get(fld)
-        ctx.check(cv is not None and cv[1] == ("const", 0), "C09.D2", mb.qualname, f"counter of {fld} scan", expected="a local starting at 0, incremented by 1 exactly when the bit is set",
-                  found=str(cv and (cv[0], show(cv[1]) if cv[1] else None)), **loc)
+        if cv is None:
+            # is there a local that changes exactly under the bit test but not by +1?  then the bookkeeping is wrong; otherwise the
+            # scan keeps its ordinals some other way (e.g. len(map) + 1), which this rule cannot follow
+            cands = [(v, t) for v, t in (info.get("body_end") or {}).items() if t[0] == "ite" and t[1] == sc["test"] and t[3] == ("loop", lid, v) and t[2] != t[3] and v in info["assigned"]]
+            wrong = [(v, t) for v, t in cands if t[2][0] == "bin" and t[2][2] == ("loop", lid, v) and is_const(t[2][3])]
+            if wrong:
+                ctx.bad("C09.D2", mb.qualname, f"counter of {fld} scan", expected="incremented by 1 exactly when the bit is set", found=f"{wrong[0][0]}: {show(wrong[0][1][2])[:60]}", **loc)
+            else:
+                ctx.undecided("C09.D2", mb.qualname, f"counter of {fld} scan", detail="no local ordinal counter found: the scan's bookkeeping has a shape this rule does not follow", **loc)
+        else:
+            ctx.check(cv[1] == ("const", 0), "C09.D2", mb.qualname, f"counter of {fld} scan", expected="a local starting at 0, incremented by 1 exactly when the bit is set",
+                      found=str((cv[0], show(cv[1]) if cv[1] else None)), **loc)
     # satellite map keys 1-based, signal list 0-based
     if sat_field in scans and sat_field in counters:
         var = counters[sat_field][0]
